@@ -80,7 +80,24 @@ Lemma stats_add_partition a b na nb :
   st_processed a = na + st_replaced a + st_rewritten a + st_mis a + st_errors a ->
   st_processed b = nb + st_replaced b + st_rewritten b + st_mis b + st_errors b ->
   st_processed (stats_add a b) = (na + nb) + st_replaced (stats_add a b) + st_rewritten (stats_add a b) + st_mis (stats_add a b) + st_errors (stats_add a b).
-Proof. intros Ha Hb. cbn [stats_add st_processed st_replaced st_rewritten st_mis st_errors]. lia. Qed.
+Proof.
+  intros Ha Hb. unfold stats_add.
+  assert (M : forallb merged stats_fields = true) by (vm_compute; reflexivity).
+  assert (M' : forall f, In f stats_fields -> merged f = true) by (apply forallb_forall; exact M).
+  rewrite !M' by (cbn; tauto).
+  cbn [st_processed st_replaced st_rewritten st_mis st_errors]. lia.
+Qed.
+
+(* every counter of a worker reaches the totals *)
+Lemma stats_add_all_fields a b :
+  stats_add a b = mk_stats (st_dirs a + st_dirs b) (st_files a + st_files b) (st_processed a + st_processed b) (st_replaced a + st_replaced b)
+                           (st_rewritten a + st_rewritten b) (st_mis a + st_mis b) (st_errors a + st_errors b).
+Proof.
+  unfold stats_add.
+  assert (M : forallb merged stats_fields = true) by (vm_compute; reflexivity).
+  assert (M' : forall f, In f stats_fields -> merged f = true) by (apply forallb_forall; exact M).
+  rewrite !M' by (cbn; tauto). reflexivity.
+Qed.
 
 (* ---------- C16: selection ---------- *)
 Lemma mem_str_rev s l : mem_str s (rev l) = mem_str s l.
